@@ -57,6 +57,10 @@ func ParseCSRResponse(signPrivateKey *sm2.PrivateKey, der []byte) (CSRResponse, 
 		signCerts[i] = signCert
 	}
 
+	if len(signCerts) == 0 {
+		return result, errors.New("smx509: no sign certificate")
+	}
+
 	// check sign public key against the private key
 	if !signPrivateKey.PublicKey.Equal(signCerts[0].PublicKey) {
 		return result, errors.New("smx509: sign cert public key mismatch")
